@@ -80,6 +80,12 @@ FAMILIES = {
                                                 dict(constants={"MaxD": "= 20", "Dup": "= TRUE"})]),
                                thorough=dict(runs=[dict(constants={"MaxD": "= 20", "Dup": "= FALSE"}),
                                                    dict(constants={"MaxD": "= 20", "Dup": "= TRUE"})]))),
+    "Grpc": fam("MC_Grpc",
+                quick=[chain(3), ex(2, NilOps="= TRUE", HopLast="= 1"), sim(600, 6, design=False, NSlots="= 2")],
+                thorough=[chain(4, hops=2), sim(10000, 8, design=False, NSlots="= 3", NilOps="= TRUE")]),
+    "Compat": fam("MC_Compat",
+                  quick=[ex(2), chain(3, hops=0), sim(1500, 6, design=False, NSlots="= 3")],
+                  thorough=[ex(3), chain(4, hops=0), sim(30000, 8, design=False, NSlots="= 3")]),
     "Unknown": fam("MC_Unknown",
                    quick=[chain(4, hops=2), sim(1000, 5, design=False, NSlots="= 2")],
                    thorough=[chain(4, hops=2), sim(20000, 7, NSlots="= 3")]),
@@ -105,6 +111,9 @@ GEN = ("behaviours are generated by TLC from the family's bounded configuration 
        "specification; distinct = distinct step sequences; non-trivial = contains ")
 
 PROPS = {
+    "C14": prop(["Compat"], GEN + "a comparison of the library's Is / As / Unwrap / Cause with the standard library's and "
+                            "pkg/errors' on the same value (all do)", None),
+    "C20": prop(["Grpc"], GEN + "a call through the gRPC interceptors", ["Grpc"]),
     "C01": prop(["Transfer"], GEN + "at least one hop between knowing processes", ["Hop"]),
     "C02": prop(dict(quick=["Transfer", "Unknown"], thorough=["Transfer", "Unknown", "Marks", "Multi"]), GEN + "at least one hop (knowing or unknowing)", ["Hop"]),
     "C03": prop(["Taint"], GEN + "a string that entered through an unsafe channel (its own searchable word)", None),
@@ -197,6 +206,18 @@ CLAIMS = {
                  "add to the depth as written; TLC checks on the table that every capture lands on the prescribed caller, "
                  "enumerates function x depth, and validates the recorded innermost frame (function, line), one-line "
                  "source and domain package of every real call against the prescribed user frame", "DESIGN 8 C16"),
+    "C20": claim("every generated value is returned by a handler of the repository's Echoer service behind the real "
+                 "UnaryServerInterceptor on an in-memory listener and received through the real UnaryClientInterceptor; the "
+                 "harness records its projection next to that of the direct EncodeError/DecodeError transfer of the same "
+                 "value and the raw gRPC status code seen by a client without interceptor; the trace specification requires "
+                 "equality of the two and the prescribed code (WrapWithGrpcCode code, Unknown, the status's own code, OK for nil)",
+                 "DESIGN 8 C20"),
+    "C14": claim("differential: the harness records the real results of the standard library's errors.Is / As / Unwrap and of "
+                 "pkg/errors.Cause next to the library's on every generated value, reference and As target (pointer, "
+                 "non-comparable value, interface); the trace specification checks the stated relations between the two "
+                 "recorded sides (implication for Is, same first match and value for As, agreement of Unwrap where the layer "
+                 "exposes Unwrap, same root as pkg Cause where every layer exposes Cause) and, from the model, that the "
+                 "standard library recognises every node of a value it can reach", "DESIGN 8 C14"),
     "C17": claim("the specification models processes with their own rename registries (RegisterTypeMigration transcribed, "
                  "incl. forwarding) and linked types; TLC checks on the model that every lineage type is encoded under the "
                  "original name and that equal lineage errors are identified in every process, for every version assignment and "
